@@ -15,7 +15,7 @@ LEVEL_TEXT = ("Static structural proof of necessary conditions: (R11.1) every fu
               "absent table entry or conversion result is passed to float(), used arithmetically or dereferenced "
               "without a dominating None test. Which spellings are accepted, numeric values, linearity and prefix "
               "units are NOT decided.")
-LEVEL_EXTRA = 'Added after the seeded evaluation: (R11.3) number-then-unit is accepted only for non-prefix units and unit-then-number only for prefix units (complementary tests of unitPrefix); (R11.4) unit and prefix conversion factors are parsed by the same chain; (R11.5) a prefix name is never case-folded. (R11.6) a number obtained with float()/int() is never tested for truthiness.'
+LEVEL_EXTRA = 'Added after the seeded evaluation: (R11.3) number-then-unit is accepted only for non-prefix units and unit-then-number only for prefix units (complementary tests of unitPrefix); (R11.4) unit and prefix conversion factors are parsed by the same chain; (R11.5) a prefix name is never case-folded. (R11.6) a number obtained with float()/int() is never tested for truthiness. (R11.7) the unit report is reachable when extra words precede a unit; a caret in a conversion factor is read as exponentiation.'
 
 
 def run(ctx):
@@ -110,29 +110,98 @@ def run(ctx):
     if gcf is None:
         raise AnalysisError("anchor UnitEntry._get_conversion_factor vanished")
     ctx.saw(gcf)
-    floats = [c for c in walk_no_nested(gcf.node) if isinstance(c, ast.Call) and isinstance(c.func, ast.Name) and c.func.id == "float"
-              and c.args and "ConversionFactor" in norm(c.args[0])]
-    if len(floats) < 2:
-        # a single parse site (e.g. a shared helper applied to both entries) is consistent by construction
-        helper_calls = [c for c in walk_no_nested(gcf.node) if isinstance(c, ast.Call) and isinstance(c.func, (ast.Name, ast.Attribute))
-                        and prog.resolve_expr(c.func, gcf.module, gcf.cls, gcf) is not None]
-        ctx.ok("R11.4", "conversion factors are parsed at %d site(s) (%d helper calls): consistent by construction" % (
-            len(floats), len(helper_calls)), loc(gcf, gcf.node))
+    # every expression that reads a declared ConversionFactor, with the way it is turned into a number:
+    # signature = (names of the calls wrapped around the read, outermost first; how the attribute is read)
+    reads = []
+    pmf = {}
+    for p_ in ast.walk(gcf.node):
+        for ch in ast.iter_child_nodes(p_):
+            pmf[id(ch)] = p_
+    for x in walk_no_nested(gcf.node):
+        if isinstance(x, ast.Attribute) and x.attr == "ConversionFactor":
+            # climb to the outermost expression of the statement
+            cur, wrappers, reader = x, [], None
+            while id(cur) in pmf and not isinstance(pmf[id(cur)], ast.stmt):
+                par = pmf[id(cur)]
+                if isinstance(par, ast.Call):
+                    nm = call_name(par)
+                    if any(cur is a_ or any(cur is y for y in ast.walk(a_)) for a_ in list(par.args) + [k.value for k in par.keywords]):
+                        if reader is None:
+                            reader = (nm, tuple(sorted(k.arg for k in par.keywords if k.arg)),
+                                      tuple(a_.value if isinstance(a_, ast.Constant) else "?" for a_ in par.args[1:]))
+                        else:
+                            wrappers.append(nm)
+                    else:
+                        wrappers.append(nm)          # a method called on the value read (e.g. .replace(...))
+                elif isinstance(par, ast.BoolOp):
+                    wrappers.append("or/and")
+                cur = par
+            reads.append((x, tuple(wrappers), reader))
+    ctx.floor("R11.4", "reads of a declared ConversionFactor in _get_conversion_factor", len(reads), 2)
+    for x, wr, rd_ in reads:
+        ctx.check((wr, rd_) == (reads[0][1], reads[0][2]), "R11.4", gcf.qualname, x, loc(gcf, x),
+                  "this conversion factor is read with %s and turned into a number by %s, the other one with %s / %s: a factor written "
+                  "`10^6` is understood for one and silently falls back to 1.0 (or another value) for the other" % (
+                      rd_, list(wr), reads[0][2], list(reads[0][1])), desc="factor read by %s, parsed by %s" % (rd_, list(wr)))
 
-    def chain(e):
-        """method-call chain applied to the attribute text, innermost first, with constant arguments"""
-        out = []
-        while isinstance(e, ast.Call) and isinstance(e.func, ast.Attribute):
-            args = tuple(a.value if isinstance(a, ast.Constant) else "?" for a in e.args[1:] if True) if e.func.attr == "get" \
-                else tuple(a.value if isinstance(a, ast.Constant) else "?" for a in e.args)
-            out.append((e.func.attr, args))
-            e = e.func.value
-        return list(reversed(out))
-    chains = [chain(c.args[0]) for c in floats]
-    for c, ch in zip(floats, chains):
-        ctx.check(ch == chains[0], "R11.4", gcf.qualname, c, loc(gcf, c),
-                  "this conversion factor is read as %s but the other one as %s: a factor written `10^6` is normalised for one "
-                  "and silently falls back to 1.0 for the other" % (ch, chains[0]), desc="factor parsed by %s" % (ch,))
+    # a caret is exponentiation: rewriting it into an `e` turns 10^6 (a million) into 10e6 (ten million)
+    n_caret = 0
+    for f in ue.all_methods:
+        for c in walk_no_nested(f.node):
+            if isinstance(c, ast.Call) and isinstance(c.func, ast.Attribute) and c.func.attr == "replace" and len(c.args) >= 2 and \
+                    isinstance(c.args[0], ast.Constant) and c.args[0].value == "^":
+                n_caret += 1
+                ctx.check(not (isinstance(c.args[1], ast.Constant) and str(c.args[1].value).lower() == "e"), "R11.4", f.qualname, c, loc(f, c),
+                          "the declared factor `10^6` is rewritten to `10e6` before float(): that is 10·10⁶, ten times the declared value, "
+                          "for every prefix from mega up and from micro down (`Distance/3 Mm` = 3e7 m)", desc="caret read as exponentiation")
+    ctx.ok("R11.4", "%d textual caret rewrites in the unit entry code" % n_caret, "")
+
+    # ---------------- R11.7: extra words between the number and the unit are a unit fault even when the last word is a unit
+    ctx.rule("R11.7", "the unit report is reached whenever the value text has extra words (the `bad_units` flag), not only when no unit was found")
+    uvv = prog.find_class("UnitValueValidator")
+    ctu = uvv.methods.get("check_tag_unit_class_units_are_valid")
+    if ctu is None:
+        raise AnalysisError("anchor UnitValueValidator.check_tag_unit_class_units_are_valid vanished")
+    ctx.saw(ctu)
+    v11 = view(ctx, ctu)
+    rd11 = ReachingDefs(ctu)
+    # the flag: a local assigned from a blank-membership test (`" " in <value>`)
+    flags = [st.targets[0].id for st in walk_no_nested(ctu.node) if isinstance(st, ast.Assign) and isinstance(st.targets[0], ast.Name)
+             and isinstance(st.value, ast.Compare) and isinstance(st.value.ops[0], ast.In) and isinstance(st.value.left, ast.Constant)
+             and st.value.left.value == " "]
+    reports = [(n_, c) for (n_, c) in v11.calls(lambda c: call_name(c) == "_check_units")]
+    ctx.floor("R11.7", "unit reports in check_tag_unit_class_units_are_valid", len(reports), 1)
+    if not flags:
+        raise AnalysisError("R11.7 anchor: no 'value has extra words' flag in check_tag_unit_class_units_are_valid")
+    pm11 = {}
+    for p_ in ast.walk(ctu.node):
+        for ch in ast.iter_child_nodes(p_):
+            pm11[id(ch)] = p_
+    for n_, c in reports:
+        cur, inner = c, None
+        while id(cur) in pm11:
+            par = pm11[id(cur)]
+            if isinstance(par, ast.If) and any(cur is b or any(cur is y for y in ast.walk(b)) for b in par.body):
+                inner = par
+                break
+            cur = par
+        # the innermost test that mentions the unit found (or the flag) decides
+        tests = []
+        cur = c
+        while id(cur) in pm11:
+            par = pm11[id(cur)]
+            if isinstance(par, ast.If):
+                tests.append(par.test)
+            cur = par
+        unit_vars = [st.targets[0].elts[1].id for st in walk_no_nested(ctu.node) if isinstance(st, ast.Assign)
+                     and isinstance(st.targets[0], ast.Tuple) and len(st.targets[0].elts) >= 2 and isinstance(st.targets[0].elts[1], ast.Name)
+                     and isinstance(st.value, ast.Call) and call_name(st.value) == "get_stripped_unit_value"]
+        relevant = [t for t in tests if any(isinstance(x, ast.Name) and x.id in flags + unit_vars for x in ast.walk(t))]
+        ok = not relevant or any(isinstance(x, ast.Name) and x.id in flags for t in relevant for x in ast.walk(t))
+        ctx.check(ok, "R11.7", ctu.qualname, c, loc(ctu, c),
+                  "the unit report is made only under `%s`, which does not consult the extra-words flag `%s`: `Weight/3 xyz g` (junk between "
+                  "the number and a valid last word) validates with no issue although `xyz g` is not a unit" % (
+                      norm(relevant[0])[:40] if relevant else "", flags[0]), desc="unit report reachable for extra words before a unit")
 
     # ---------------- R11.5: prefixes are case-sensitive (m = milli, M = mega): their names are never case-folded
     ctx.rule("R11.5", "the name of an SI prefix (unit modifier) is used exactly as declared, never case-folded")
